@@ -1451,7 +1451,15 @@ class HtmlTreeView(HtmlView):
     if not overriden_kwargs:
       return call_kwargs
 
-    call_kwargs = call_kwargs.copy()
+    # NOTE: `merge_tree` below merges nested dicts in place: copy the nested
+    # option dicts (e.g. `extra_flags`) too, which the caller still owns and
+    # passes on to the siblings of the child being configured.
+    def _copy_dicts(v):
+      if type(v) is dict:  # pylint: disable=unidiomatic-typecheck
+        return {k: _copy_dicts(x) for k, x in v.items()}
+      return v
+
+    call_kwargs = _copy_dicts(call_kwargs)
     overriden_kwargs = overriden_kwargs.copy()
 
     # Override collapse_level.
